@@ -118,18 +118,20 @@ class MirImpl:
         self._rec('clean', dict(src=list(src), ds=ds, de=de, cfg=cfg), res)
         return res['out']
 
-    def list(self, src, ds, de, cfg, all=False, format='json'):
+    def list(self, src, ds, de, cfg, all=False, format='json', raw=False):
         content = RcObj(StringObj(src))
         fmt = Enum('chiritori::ListFormat', 'JSON' if format == 'json' else 'PrettyString', [])
         r = self._call('chiritori::list_all' if all else 'chiritori::list',
                        [content, Agg([StringObj(list(ds)), StringObj(list(de))]), self._cfg(cfg), fmt])
         if r.variant == 'Err':
             res = dict(err='ListError')
+        elif format == 'json' and raw:
+            res = dict(out=list(r.fields[0].buf))
         elif format == 'json':
             res = dict(items=r.fields[0].meta)
         else:
             res = dict(out=list(r.fields[0].buf))
-        self._rec('list', dict(src=list(src), ds=ds, de=de, cfg=cfg, all=all, format=format), res)
+        self._rec('list', dict(src=list(src), ds=ds, de=de, cfg=cfg, all=all, format=format, raw=raw), res)
         return res
 
     def format(self, content, pos):
@@ -169,6 +171,18 @@ class MirImpl:
         return res['out']
 
 
+def _mir_run_cli(self, job):
+    import cli
+    res = cli.MirCli(self.I).run(job)
+    if 'time-limited-current' in job['opts'] and not any(is_sym(b) for v in job['opts']['time-limited-current'] for b in v):
+        # (without an explicit current time the real binary reads the wall clock: not comparable)
+        self._rec('run_cli', dict(job=job), dict(exit=res['exit'], stdout=res['stdout'], files=res['files']))
+    return res
+
+
+MirImpl.run_cli = _mir_run_cli
+
+
 # serde_json::to_string::<Vec<ListItem>> stub: keeps the structure (DESIGN.md §4.4)
 def _serde_to_string(I, a):
     v = deref(a[0])
@@ -179,7 +193,39 @@ def _serde_to_string(I, a):
         items.append(dict(line_range=None if lr.variant == 'None' else [lr.fields[0][0], lr.fields[0][1]],
                           annotated_code_block=list(it[L.index('annotated_code_block')].buf),
                           current_status=it[L.index('current_status')].variant))
-    return ok(StringObj([], meta=items))
+    text = []
+    if getattr(I, 'json_text', False):
+        text = json_text(I, items)
+    return ok(StringObj(text, meta=items))
+
+
+def json_escape(I, bs):
+    out = [34]
+    for b in bs:
+        if is_sym(b):
+            if I.branch(z3.Or(b == 34, b == 92, z3.ULT(b, 0x20))):
+                raise Unsupported('JSON escaping of a symbolic special byte')
+            out.append(b)
+        elif b == 34 or b == 92:
+            out += [92, b]
+        elif b < 0x20:
+            out += {8: list(b'\\b'), 9: list(b'\\t'), 10: list(b'\\n'), 12: list(b'\\f'), 13: list(b'\\r')}.get(b, list(b'\\u%04x' % b))
+        else:
+            out.append(b)
+    return out + [34]
+
+
+def json_text(I, items):
+    """compact serde_json rendering of Vec<ListItem> (field order = declaration order)"""
+    out = [91]
+    for k, it in enumerate(items):
+        if k:
+            out.append(44)
+        lr = it['line_range']
+        out += list(b'{"line_range":') + (list(b'null') if lr is None else list(('[%d,%d]' % (lr[0], lr[1])).encode()))
+        out += list(b',"annotated_code_block":') + json_escape(I, it['annotated_code_block'])
+        out += list(b',"current_status":"') + list(it['current_status'].encode()) + list(b'"}')
+    return out + [93]
 
 
 models.EXACT['serde_json::to_string'] = _serde_to_string
@@ -238,11 +284,11 @@ class NativeImpl:
     def clean(self, src, ds, de, cfg):
         return self.request(dict(fn='clean', src=src, ds=ds, de=de, cfg=cfg))['out']
 
-    def list(self, src, ds, de, cfg, all=False, format='json'):
+    def list(self, src, ds, de, cfg, all=False, format='json', raw=False):
         r = self.request(dict(fn='list', src=src, ds=ds, de=de, cfg=cfg, all=all, format=format))
         if 'err' in r:
             return r
-        if format == 'json':
+        if format == 'json' and not raw:
             items = json.loads(bytes(r['out']).decode())
             for it in items:
                 it['annotated_code_block'] = list(it['annotated_code_block'].encode())
@@ -258,6 +304,17 @@ class NativeImpl:
     def pretty_item(self, content, start, end, is_removal, coloring, line_range):
         return self.request(dict(fn='pretty_item', content=content, start=start, end=end, is_removal=is_removal,
                                  coloring=coloring, line_range=line_range))['out']
+
+    def run_cli(self, job):
+        """the real binary, once per TZ setting of the job; the results must not depend on TZ"""
+        res = None
+        for tz in job.get('tz_list', ['UTC']):
+            r = self.cli.run(job, tz)
+            if res is None:
+                res = r
+            elif (r['exit'], r['stdout'], r['files']) != (res['exit'], res['stdout'], res['files']):
+                res = dict(res, tz_differs=tz)
+        return res
 
     def replay_logged(self, fn, args):
         """re-run a logged MirImpl call natively; returns the same dict shape MirImpl logged"""
@@ -277,6 +334,9 @@ class NativeImpl:
             return dict(out=self.is_removal(**args))
         if fn == 'pretty_item':
             return dict(out=self.pretty_item(**args))
+        if fn == 'run_cli':
+            r = self.run_cli(args['job'])
+            return dict(exit=r['exit'], stdout=r['stdout'], files=r['files'])
         raise KeyError(fn)
 
 
